@@ -404,6 +404,9 @@ func opGraftTip(h *hist) *Event {
 		return nil
 	}
 	eid := 1 + h.r.Intn(len(h.p.E))
+	if h.p.E[eid-1].Len < 0 {
+		return nil // GraftTipOnEdge halves the length: only meaningful on a branch that has one
+	}
 	h.fresh++
 	nm := fmt.Sprintf("g%d", h.fresh)
 	ev := &Event{Op: "GraftTipOnEdge", Args: map[string]interface{}{"edge": eid, "name": nm}}
